@@ -570,3 +570,5 @@ def run(ctx):
     run_rotation_case(ctx, jax, jnp, wh, rng, shape, kind)
   for cid, rng in ctx.cases('tree', n_tree):
     run_tree_case(ctx, jax, jnp, wh, rng)
+
+TECHNIQUE += '; configuration shards (non-partitionable threefry, rbg PRNG); caller-owned-input sanitizer'
